@@ -377,9 +377,43 @@ def write_evidence(args, prop, reg, units, n_ob, n_dis, backend, solver_time, sa
         "wall_s": round(wall, 2),
         "violations": len(violations),
     }
+    compact_instances(ev["coverage"])
     os.makedirs(os.path.join(ROOT, "evidence"), exist_ok=True)
     with open(os.path.join(ROOT, "evidence", "%s.json" % prop), "w") as f:
         json.dump(ev, f, indent=1, default=str)
+
+
+def compact_instances(cov):
+    """Instance families (one unit per table entry, `name#table[k]`) are folded into one record per family so that the
+    evidence file stays readable (C09 has 3900 instance units): counts are summed, the first instance is kept as the example."""
+    import re
+    fam = lambda n: re.sub(r"\[\d+\]", "[*]", n)
+    units, seen = [], {}
+    for u in cov["functions_under_contract"]:
+        k = fam(u["qualname"])
+        if k == u["qualname"]:
+            units.append(u)
+            continue
+        if k not in seen:
+            rec = dict(u, qualname=k, instances=0, example_instance=u["qualname"], paths=0)
+            seen[k] = rec
+            units.append(rec)
+        seen[k]["instances"] += 1
+        seen[k]["paths"] += u.get("paths", 0)
+    cov["functions_under_contract"] = units
+    clauses = {}
+    for name, c in cov["clauses"].items():
+        k = fam(name)
+        if k not in clauses:
+            clauses[k] = dict(c)
+            if k != name:
+                clauses[k]["instances"] = 1
+        else:
+            clauses[k]["paths"] += c["paths"]
+            clauses[k]["discharged"] += c["discharged"]
+            clauses[k]["instances"] = clauses[k].get("instances", 1) + 1
+    cov["clauses"] = clauses
+    cov["units_total"] = len(units) + sum(r["instances"] - 1 for r in seen.values())
 
 
 def second_solver_counts(results):
